@@ -1,12 +1,14 @@
 #!/bin/bash
 # tools/runall.sh [quick|thorough] [ids…] — runs the registered checks one after the other against /repo and
-# prints one line per property (result, paths, wall time). Evidence goes to /verif/evidence as usual.
+# prints one line per property (result, paths, wall time). Quick runs write evidence/ as usual; thorough runs started
+# from here write evidence-thorough/ so that the committed quick evidence stays.
 TIER=${1:-quick}; shift
 IDS=${@:-C01 C02 C03 C04 C05 C06 C07 C08 C09 C10 C11 C12 C13 C14 C15 C16 C17 C18 C19 C20}
 cd "$(dirname "$0")/.."
 for P in $IDS; do
   S=$(date +%s)
   if [ "$TIER" = thorough ]; then T=4200; else T=900; fi
+  if [ "$TIER" = thorough ]; then export VERIF_EVIDENCE_DIR=$PWD/evidence-thorough; fi   # keep the quick evidence in evidence/
   timeout $T ./check $P --tier $TIER > /tmp/runall-$P.out 2>&1; RC=$?
   echo "$P rc=$RC $(( $(date +%s) - S ))s $(grep -a -m1 '^RESULT' /tmp/runall-$P.out | cut -c1-160)"
   grep -a -m3 '^INCONCLUSIVE\|^VIOLATION\|^KNOWN-FINDING' /tmp/runall-$P.out | cut -c1-240
